@@ -2,6 +2,7 @@
 //! log rejects corruption instead of reinterpreting it).
 
 mod c10;
+mod c11;
 mod hostkit;
 mod segparse;
 mod strace_lane;
@@ -24,6 +25,7 @@ fn main() {
     }
     let code = match args.prop.as_str() {
         "C10" => c10::run(&args),
+        "C11" => c11::run(&args),
         other => {
             println!("HARNESS-ERROR unknown property {other}");
             2
